@@ -135,7 +135,7 @@ func verifDrawClass(rng *rand.Rand, class string) verifDraw {
 		t := pick(strconv.Itoa(1+rng.Intn(1000000)), strconv.FormatInt(rng.Int63n(1<<53-1)+1, 10), "1e3", "12.0", "1.5e1", "9007199254740991", "4294967296")
 		return verifDraw{text: t, want: verifExact(t)}
 	case "num_2_53":
-		t := pick("9007199254740992", "9007199254740993", "9007199254740994", "9.007199254740992e15")
+		t := pick("9007199254740992", "9007199254740993", "9007199254740994", "9.007199254740992e15", "9007199254740991.5") /* the last one is integral as a double */
 		return verifDraw{text: t, want: verifExact(t)}
 	case "num_big_in_range":
 		t := pick("18446744073709549568", "1e19", "9223372036854775808", "9223372036854775807", "18446744073709550000", "1.2345e17")
@@ -143,7 +143,7 @@ func verifDrawClass(rng *rand.Rand, class string) verifDraw {
 	case "num_neg":
 		return verifDraw{text: pick("-1", "-5", "-1e300", "-9007199254740992", "-18446744073709551616", "-0.5", "-1e-9")}
 	case "num_frac":
-		return verifDraw{text: pick("0.5", "1.0000001", "1e-9", "12345.678", "4.9e-324", "9007199254740991.5", "0.1")}
+		return verifDraw{text: pick("0.5", "1.0000001", "1e-9", "12345.678", "4.9e-324", "4503599627370495.5", "0.1")}
 	case "num_ge_2_64":
 		return verifDraw{text: pick("18446744073709551616", "18446744073709551615", "2e19", "36893488147419103232", "18446744073709552000")}
 	case "num_huge":
